@@ -89,6 +89,7 @@ func (f *frame) recordEvent(w string, args, results []Term) {
 	}
 	// snapshot of the whole ghost event state at this call, for ordering clauses
 	f.st.set("G$seq$"+w, f.bumpClock())
+	f.updateAlways(w, tTrue)
 }
 
 func (f *frame) bumpClock() Term {
@@ -838,6 +839,7 @@ func (f *frame) selectInstr(x *ssa.Select) {
 			a := f.st.get("G$ret$"+w+"$0", recvd.Sort)
 			f.st.set("G$ret$"+w+"$0", vc.define("G$ret$"+w, mkIte(chosen, recvd, a)))
 		}
+		f.updateAlways(w, chosen)
 	}
 	for i, s := range x.States {
 		if s.Dir == types.SendOnly {
@@ -852,6 +854,7 @@ func (f *frame) selectInstr(x *ssa.Select) {
 				f.st.set("G$called$"+w, vc.define("G$called$"+w, mkOr(c, chosen)))
 				a := f.st.get("G$arg$"+w+"$0", f.tt().sortOf(s.Send.Type()))
 				f.st.set("G$arg$"+w+"$0", vc.define("G$arg$"+w, mkIte(chosen, f.val(s.Send), a)))
+				f.updateAlways(w, chosen)
 			}
 		}
 	}
@@ -1200,6 +1203,7 @@ func (f *frame) taintEvents(callees []*ssa.Function, skip map[string]bool) {
 		f.st.set("G$called$"+w, vc.define("G$called", mkOr(f.st.get("G$called$"+w, SBool), some)))
 		f.st.set("G$ncalls$"+w, vc.define("G$ncalls", bvAdd(f.st.get("G$ncalls$"+w, SBV64), d)))
 		f.st.set("G$tainted$"+w, vc.define("G$tainted", mkOr(f.st.get("G$tainted$"+w, SBool), some)))
+		f.taintAlways(w, some)
 	}
 }
 
